@@ -1,5 +1,5 @@
 from algo_prop import make
-LEAN_EXTRA = ["PyXABProofs.Generated.FormulasC08"]
+LEAN_EXTRA = ["PyXABProofs.Lemmas.OT_Bridge", "PyXABProofs.Props.DOOOptimism", "PyXABProofs.Generated.OrderTieC08", "PyXABProofs.Generated.FormulasC08"]
 ALGOS = ['SOO', 'StoSOO', 'DOO']
 budget, explore, search, replay = make("C08", ALGOS, quick_per_algo=14, thorough_per_algo=150, salt=800)
 RULE = ("the documented pull/receive loop on the real classes: algorithm x partition class (K 2..5) x dimension 1..3 x box shape x "
@@ -38,7 +38,8 @@ def explore(tier, seed, n):
 
 
 def regenerate(tier):
-    """translator tie for the numeric formulas: the real node methods are traced symbolically and re-proved equal to the
-    published formulas (Spec/Formulas.lean) over every field, on every run"""
-    import translate_formulas
-    return translate_formulas.generate("C08")
+    """translator ties re-proved on every run: numeric formulas traced from the real methods = published formulas over every
+    field (Spec/Formulas.lean), and selection rules run on order-only values for every order type = the model rules for all
+    values of any linear order (Spec/OrderType.lean, Props/OrderTie.lean)"""
+    import ties
+    return ties.regen("C08")
